@@ -1189,7 +1189,8 @@ pub fn c05_record_set(tag: &str) -> Vec<Vec<u8>> {
 fn c05_write_input(dir: &str, records: &[Vec<u8>], container: &str) -> String {
     use crate::files::{serialise, Rec, Ser};
     // every seventh record has an empty header line (no id): the record count must not depend on ids
-    let recs: Vec<Rec> = records.iter().enumerate().map(|(i, r)| Rec { header: if i % 7 == 3 { String::new() } else { format!("{} some description", crate::vecs::rec_id(records, i)) }, bases: r.clone() }).collect();
+    // (not when it has no bases either: a bare '>' line is the underlying parser's end-of-input marker)
+    let recs: Vec<Rec> = records.iter().enumerate().map(|(i, r)| Rec { header: if i % 7 == 3 && !r.is_empty() { String::new() } else { format!("{} some description", crate::vecs::rec_id(records, i)) }, bases: r.clone() }).collect();
     let (ser, suffix, gz) = match container {
         "fasta" => (Ser::FastaLine, ".fa", false),
         "fasta-w1" => (Ser::FastaWrap(1), ".fasta", false),
@@ -1276,6 +1277,10 @@ pub fn c05_lattice(ctx: &mut Ctx) {
                 for &limit in &limits {
                     for container in containers {
                         if set == "long-first" && container == "fasta-w1" {
+                            continue;
+                        }
+                        // records without bases are well-formed in FASTA only
+                        if container.starts_with("fastq") && recs.iter().any(|r| r.is_empty()) {
                             continue;
                         }
                         if !thorough {
